@@ -7,19 +7,24 @@ PROFILES = {
     # keys only, lots of collisions and state changes
     "C01": dict(axes=True, akinds=["key", "key", "cc"], naxes=[0, 0, 1, 2], abs_p=0.2, max_events=60, disconnect_p=0.7,
                 release_all_p=0.6, no_learning=True),
-    "C02": dict(axes=False, max_events=60, action_p=0.4, nmaps=[2, 3, 3], disconnect_p=0.2),
+    # a quarter of the devices also have axes (never bound to actions): the state-changing keys stay silent whatever the
+    # axes did while they were held
+    "C02": dict(axes=True, axes_p=0.25, akinds=["cc", "cc", "pitch_bend", "key"], naxes=[1, 2], abs_p=0.15, learn_axis_p=0.6,
+                max_events=60, action_p=0.4, nmaps=[2, 3, 3], disconnect_p=0.2),
     "C03": dict(axes=False, max_events=60, max_keys=6, action_p=0.25, disconnect_p=0.2),
     "C04": dict(axes=False, max_events=70, action_p=0.5, nactions=[2, 4, 6], extra_oct=[10, -10, 11, -11, 126, 127, -127, -128, 128, 200, -300], extra_semi=[127, -128, 126, 130, -200],
                 disconnect_p=0.1),
-    "C05": dict(axes=True, max_events=50, unaccepted_p=0.0, abs_p=0.35,
-                want_actions=["panic"], nactions=[1, 2, 4]),
+    "C05": dict(axes=True, max_events=50, unaccepted_p=0.0, abs_p=0.35, sweep_p=0.12,
+                want_actions=["panic", "cc_learning"], nactions=[1, 2, 4]),
     "C06": dict(axes=True, akinds=["cc", "cc", "pitch_bend"], naxes=[1, 2, 3], abs_p=0.85, max_events=50, nactions=[0, 0, 1, 2],
                 max_keys=3, sweep_p=0.25, unaccepted_p=0.0, disconnect_p=0.1),
     "C07": dict(axes=True, akinds=["cc"], bidir_p=0.9, naxes=[1, 2, 3], abs_p=0.7, max_events=60, want_actions=["cc_learning"],
-                nactions=[1, 1, 2], action_p=0.5, max_keys=3, unaccepted_p=0.0, disconnect_p=0.1, no_pairs=True),
+                nactions=[1, 1, 2], action_p=0.5, max_keys=3, unaccepted_p=0.0, disconnect_p=0.1, no_pairs=True, sweep_p=0.1),
     "C08": dict(axes=True, akinds=["key"], naxes=[1, 2, 3], abs_p=0.6, max_events=60, nactions=[0, 2, 4], action_p=0.4,
                 max_keys=3, unaccepted_p=0.0, no_learning=True, axis_unmapped_p=0.1),
-    "C13": dict(axes=False, max_events=50, want_actions=["panic"], nactions=[1, 2, 3, 5, 6], action_p=0.4, panic_across_held_p=0.35),
+    # a third of the devices have key-emulating axes (and controllers): panic with such an axis deflected
+    "C13": dict(axes=True, axes_p=0.3, akinds=["key", "key", "cc"], naxes=[1, 2], abs_p=0.15, max_events=50, want_actions=["panic"],
+                nactions=[1, 2, 3, 5, 6], action_p=0.4, panic_across_held_p=0.35),
     "C14": dict(axes=False, max_events=50, nexit=[0, 1, 2, 2, 3, 3], action_p=0.3),
 }
 SIZES = {"quick": 8000, "thorough": 400000}
